@@ -18,6 +18,9 @@ EXTENDS AvmTable
 IntSpell == { << "0", "0", 0 >>, << "7", "7", 7 >>, << "010", "8", 8 >>, << "0x1f", "31", 31 >>,
               << "255", "255", 255 >>, << "0xff", "255", 255 >>, << "017", "15", 15 >>, << "3", "3", 3 >> }
 SmallInt == { x \in IntSpell : x[3] <= 3 \/ x[1] = "7" }       \* for depths / counts, where 255 values would be silly
+(* array indices of txna / gtxna / gtxnsa / itxna / gitxna go through a parser of their own (parse_transaction_field._parse_int): *)
+(* they get the octal and hex spellings as well (seeded change C16-d read `010` there as ten)                                *)
+IdxSpell == SmallInt \cup { x \in IntSpell : x[1] \in { "010", "017", "0x1f" } }
 
 (* <<written tokens, canonical 0x-hex>> ; quoted strings keep their spelling *)
 ByteSpell == { << << "0x010203" >>, "0x010203" >>,
@@ -84,10 +87,11 @@ LineCases ==
   \cup { C("pushbytess", b[1] \o << "0x00" >>, << b[2], "0x00" >>, 0, 2, "") : b \in { x \in ByteSpell : ~EndEscaped(x) } }
   \cup { C(op, << "0x00" >> \o b[1], << "0x00", b[2] >>, 0, 2, "") : op \in { "bytecblock", "pushbytess" }, b \in ByteSpell }
   \cup { C(op, << f >>, << f >>, 0, 0, f) : op \in { "txn", "gtxns", "itxn", "itxn_field" }, f \in TxnFields }
-  \cup { C(op, << f, x[1] >>, << f, x[2] >>, x[3], 0, f) : op \in { "txna", "gtxnsa", "itxna" }, f \in TxnArrays, x \in SmallInt }
+  \cup { C(op, << f, x[1] >>, << f, x[2] >>, x[3], 0, f) : op \in { "txna", "gtxnsa", "itxna" }, f \in TxnArrays, x \in IdxSpell }
   \cup { C(op, << f >>, << f >>, 0, 0, f) : op \in { "txnas", "gtxnsas", "itxnas" }, f \in TxnArrays }
   \cup { C(op, << x[1], f >>, << x[2], f >>, x[3], 0, f) : op \in { "gtxn", "gitxn" }, f \in TxnFields, x \in SmallInt }
   \cup { C(op, << x[1], f, "1" >>, << x[2], f, "1" >>, x[3], 0, f) : op \in { "gtxna", "gitxna" }, f \in TxnArrays, x \in SmallInt }
+  \cup { C(op, << "010", f, y[1] >>, << "8", f, y[2] >>, 8, 0, f) : op \in { "gtxna", "gitxna" }, f \in TxnArrays, y \in IdxSpell \ SmallInt }
   \cup { C(op, << x[1], f >>, << x[2], f >>, x[3], 0, f) : op \in { "gtxnas", "gitxnas" }, f \in TxnArrays, x \in SmallInt }
   \cup { C("global", << f >>, << f >>, 0, 0, f) : f \in GlobalFields }
   \cup { C("asset_holding_get", << f >>, << f >>, 0, 0, f) : f \in { "AssetBalance", "AssetFrozen" } }
